@@ -35,7 +35,7 @@ LEVEL_TEXT = ('Each generated program is built through every route and the resul
               'attribute and by full-state snapshots after evaluation and solution on identical data.')
 LEVEL_NOTE = 'Trusted: CPython exec; the snapshot function. Not covered: converters that are not pure functions of the symbol.'
 
-CONVERTERS = ['default', 'identity', 'wrap-if', 'comment-prefix', 'try-guard', 'assert-guard', 'debug-guard', 'stateful', 'recorder']
+CONVERTERS = ['default', 'identity', 'wrap-if', 'comment-prefix', 'try-guard', 'assert-guard', 'debug-guard', 'stateful', 'recorder', 're-entrant']
 
 
 class StatefulConverter:
@@ -92,6 +92,11 @@ def make_converter(kind, log):
             return 'assert t < 0, "guard"\n' + code
         if kind == 'debug-guard':
             return 'if __debug__:\n    t = t\nelse:\n    raise RuntimeError("optimised")\n' + code
+        if kind == 're-entrant':
+            # a converter that calls back into the library while the outer build is under way (here: to look at the
+            # default translation of the one symbol, as build_model's own fallback does)
+            inner = fsic.build_model_definition([symbol])
+            return '# checked (%d characters by default)\n' % len(inner.split('def _evaluate')[1]) + code
         if kind == 'try-guard':
             return 'try:\n' + textwrap.indent(code, '    ') + '\nexcept ZeroDivisionError:\n    pass'
         raise ValueError(kind)
